@@ -54,6 +54,7 @@ type progOut struct {
 }
 
 var pathCounter int
+var litCache = map[string]string{}
 
 // runVariant compiles src, returns the mnemonics of the last source line (without the final RETURN and without
 // the operand loads) and the result of running it.
@@ -90,6 +91,7 @@ func opLineMnemonics(dis string, lastLine int) string {
 	var ms []string
 	cur := 0
 	first := true
+	prelude := true // LOAD_VALUE <file method>; EXEC; POP at the start of every top-level function
 	for _, l := range strings.Split(dis, "\n") {
 		if strings.HasPrefix(l, "== Disassembly") {
 			if !first {
@@ -105,10 +107,16 @@ func opLineMnemonics(dis string, lastLine int) string {
 		if m[2] != "|" {
 			fmt.Sscanf(m[2], "%d", &cur)
 		}
+		mn := m[4]
+		if prelude {
+			if mn == "POP" {
+				prelude = false
+			}
+			continue
+		}
 		if cur != lastLine {
 			continue
 		}
-		mn := m[4]
 		switch {
 		case mn == "RETURN", strings.HasPrefix(mn, "GET_LOCAL"), strings.HasPrefix(mn, "PREP_LOCALS"),
 			mn == "EXEC", mn == "POP" && len(ms) == 0:
@@ -153,11 +161,19 @@ func execPath(f []string) string {
 	}
 	la, lb := string(laB), string(lbB)
 	for _, p := range [][2]string{{la, a}, {lb, b}} {
-		v, ok := evalElk(p[0])
+		enc, ok := litCache[p[0]]
 		if !ok {
-			return "bad-operand"
+			v, ok := evalElk(p[0])
+			if !ok {
+				return "bad-operand"
+			}
+			enc, ok = encodeVal(v)
+			if !ok {
+				return "bad-operand"
+			}
+			litCache[p[0]] = enc
 		}
-		if enc, ok := encodeVal(v); !ok || enc != p[1] {
+		if enc != p[1] {
 			return "bad-operand"
 		}
 	}
@@ -196,7 +212,18 @@ func probeOpSelect(args []string) (any, error) {
 		Ops  []string `json:"ops"`
 	}
 	var rows []row
+	all := append([]struct{ name, lit string }{}, selTypes...)
 	for _, t := range selTypes {
+		if !strings.Contains(t.name, "|") {
+			all = append(all, struct{ name, lit string }{unionWith(t.name), t.lit})
+		}
+	}
+	seen := map[string]bool{}
+	for _, t := range all {
+		if seen[t.name] {
+			continue
+		}
+		seen[t.name] = true
 		r := row{Type: t.name}
 		for _, op := range selOps {
 			got := "rejected"
@@ -235,11 +262,26 @@ func probeHandlers(args []string) (any, error) {
 	for _, t := range []struct{ name, la, lb string }{{"Float", "-3.5", "-1.25"}, {"Int", "-7", "3"}} {
 		for _, op := range selOps {
 			src := fmt.Sprintf("var a: %s = %s\nvar b: %s = %s\na %s b", t.name, t.la, t.name, t.lb, op)
-			o := runVariant(src)
-			if o.rejected || !strings.HasSuffix(o.ops, map[string]string{"Float": "_FLOAT", "Int": "_INT"}[t.name]) &&
-				!strings.HasSuffix(o.ops, "_I") && !strings.HasSuffix(o.ops, "_F") {
+			pathCounter++
+			fn, failed := compileOnly(fmt.Sprintf("/tmp/hnd%d.elk", pathCounter), src)
+			if fn == nil || failed {
 				continue
 			}
+			var db bytes.Buffer
+			fn.Disassemble(&db)
+			ops := opLineMnemonics(db.String(), 3)
+			isInt := strings.HasSuffix(ops, "_INT") || strings.HasSuffix(ops, "_I")
+			isFloat := strings.HasSuffix(ops, "_FLOAT") || strings.HasSuffix(ops, "_F")
+			if !isInt && !isFloat {
+				continue // generic opcode or method call
+			}
+			if (t.name == "Float") != isFloat {
+				// a handler for the other type was selected: running it reinterprets the operand (and can crash
+				// the process), so it is only recorded
+				out = append(out, ent{Opcode: ops, Op: op, Type: t.name, Accessor: "handler-of-other-type"})
+				continue
+			}
+			o := runVariant(src)
 			a, _ := evalElk(t.la)
 			b, _ := evalElk(t.lb)
 			acc := "unknown"
